@@ -90,6 +90,13 @@ def probes_on(model, r, names, stats, report):
                     if direction == "pull" and leak_bounced(arc.in_port, lk0, y, got, want):
                         sig = sig + ("leak-bounced",)
                     report(what, sig, "C07")
+                # C08: an arc that is a pull-only (push-only) arc never carries a push (pull): nothing admitted, offer handed
+                # back whole - whatever else was done to the arc (overrides) after it was built
+                one_way = (isinstance(arc, A.PullArc) and direction == "push") or (isinstance(arc, A.PushArc) and direction == "pull")
+                if one_way and (X != 0 or (direction == "push" and abs(got - y) > DUST) or (direction == "pull" and got != 0)):
+                    report(f"{kind} {src}->{dst} is a {'pull' if direction == 'push' else 'push'}-only arc but its {direction} check offers {X} "
+                           f"and a {direction} of {y} {'left ' + str(got) + ' unplaced' if direction == 'push' else 'returned ' + str(got)}",
+                           (direction, kind, src, dst, "one-way"), "C08")
                 if direction == "pull" and got > y + DUST:
                     sig = (direction, kind, src, dst) + (("leak-bounced",) if leak_bounced(arc.in_port, lk0, y, got, min(y, X)) else ("over-asked",))
                     report(f"a pull of {y} over {kind} {src}->{dst} returned {got}: more than was asked", sig, "C18")
@@ -134,13 +141,20 @@ def close_v(a, b):
 
 
 def run(rep, thorough, pid="C07"):
-    n = 400 if thorough else (150 if pid in ("C03", "C04", "C11", "C18") else 100)
+    n = 400 if thorough else (150 if pid in ("C03", "C04", "C08", "C11", "C18") else 100)
     stats = {"models": 0, "probes": 0, "by_class": {}, "violations": 0}
     seen = {}
     stats["after_reinit"] = 0
     for idx, (seed, size) in enumerate(net_check.gen_cases(f"net_{pid}_probe", n, 3)):
         r = random.Random(seed)
-        cfg = NG.gen_model(random.Random(seed), ndates=3, size=size)
+        o = {}
+        if idx % 4 == 2:
+            o["overrides"] = True           # parameters changed through overrides between building and running
+        if idx % 5 == 3 and pid == "C08":
+            # travel-time, decaying and one-way arc classes - for the one-way clause only: a pull probed through a chain
+            # with an AltQueueArc is outside what that class supports (it queues pulled water as if it had been pushed)
+            o["arc_mix"] = 0.4
+        cfg = NG.gen_model(random.Random(seed), ndates=3, size=size, opts=o)
         mon, model, err, out = MN.run_cfg(cfg, "exact", pids=())
         if err or model is None:
             continue
